@@ -122,5 +122,12 @@ func VH_C09_LenAgree(typ int) {
 	_, l, err := CellBytes(data, vhPre, t, meta, false)
 	vhAssert(err == nil, "CellBytes: no error on a valid cell")
 	vhAssert(l == cl, "length rule and decoder agree on the size of the cell")
+	// neither of them reads beyond the cell: the same answers on a buffer that ends exactly where the
+	// cell ends (the last cell of the last row image of an event)
+	exact := data[: vhPre+cl : vhPre+cl]
+	cl2, cerr2 := cellLength(exact, vhPre, t, meta)
+	vhAssert(cerr2 == nil && cl2 == cl, "cellLength needs no byte beyond the cell")
+	_, l2, err2 := CellBytes(exact, vhPre, t, meta, false)
+	vhAssert(err2 == nil && l2 == cl, "CellBytes needs no byte beyond the cell")
 	vhCover("agree")
 }
